@@ -16,6 +16,7 @@ from ..core import Machine, Transition
 from .nesting import HierarchicalMachine, NestedEvent, NestedTransition
 from .locking import LockedMachine
 from .diagrams import GraphMachine, NestedGraphTransition, HierarchicalGraphMachine
+from .markup import HierarchicalMarkupMachine
 
 try:
     from transitions.extensions.asyncio import AsyncMachine, AsyncTransition
@@ -91,7 +92,7 @@ class LockedGraphMachine(GraphMachine, LockedMachine):
         return GraphMachine.format_references(func)
 
 
-class LockedHierarchicalGraphMachine(GraphMachine, LockedHierarchicalMachine):
+class LockedHierarchicalGraphMachine(GraphMachine, HierarchicalMarkupMachine, LockedHierarchicalMachine):
     """
         A threadsafe hierarchical machine with graph support.
     """
@@ -113,7 +114,7 @@ class AsyncGraphMachine(GraphMachine, AsyncMachine):
     transition_cls = AsyncTransition
 
 
-class HierarchicalAsyncGraphMachine(GraphMachine, HierarchicalAsyncMachine):
+class HierarchicalAsyncGraphMachine(GraphMachine, HierarchicalMarkupMachine, HierarchicalAsyncMachine):
     """A hierarchical machine that supports asynchronous event/callback processing with Graphviz support."""
 
     transition_cls = NestedAsyncTransition
